@@ -35,9 +35,9 @@ TRANSLATABLE = [
 
 def c08_header_split(col: int, n: int, double: bool, sp_before: int, sp_after: int, t0: int, t1: int, t2: int) -> bool:
     """
-    pre: 0 <= sp_before <= 2 and 0 <= sp_after <= 2
-    pre: 33 <= t0 <= 126 and t0 != 58 and 33 <= t1 <= 126 and t1 != 58 and 33 <= t2 <= 126 and t2 != 58
-    post: _ == True
+    vpre: 0 <= sp_before <= 2 and 0 <= sp_after <= 2
+    vpre: 33 <= t0 <= 126 and t0 != 58 and 33 <= t1 <= 126 and t1 != 58 and 33 <= t2 <= 126 and t2 != 58
+    vpost: _ == True
     """
     spelling, canon = TRANSLATABLE[col]
     lang = S(*((t0, t1, t2)[:n]))
